@@ -95,6 +95,8 @@ def unit(u) -> Stats:
     if isinstance(v, tuple) and v and v[0] == "GEN":
         v = gens.draw(v[1], v[2], v[3])
         tol = gens.float_tol(v, n)
+    if tol == "float":
+        tol = gens.float_tol(v, n)
     st = Stats()
     memo: dict = {}
     for comp in comps:
@@ -181,6 +183,10 @@ def units(run: Run):
         if i % 2 == seed % 2 or not quick:
             for tag, gv in A.with_scales([g], 3):
                 us.append((3, f"{tag}#{i}", gv, SA, (), 0.0))
+        if i % 4 == seed % 4 or not quick:
+            # large NON-integer values with a small surplus (sums of squares are far from exactly representable)
+            third = tuple(x / 3.0 for x in A.shifted(g, tuple(A.BIG * y for y in (1, -1, 2))))
+            us.append((3, f"bigthird#{i}", third, SA, (), "float"))
     games4 = list(enumerate(A.a4_sa_reps(seed)))
     if not quick:
         games4 = [(i, g) for i, g in enumerate(A.a4_sa_full()) if i % 2 == seed % 2]
